@@ -247,6 +247,7 @@ pub fn property() -> Property {
                 name: "random-long-histories",
                 rule: "see property rule",
                 cases: (600_000, 2_000_000),
+                fuzz_decode: None,
                 strategy: rand_strategy,
                 check: check_rand,
                 required_classes: &["has-substitution", "run>=200-under-max>=200"],
